@@ -20,7 +20,7 @@ structure CPState where
 
 /-- `ConstProp::lookupVal` (1827-1834).  A local that is declared later (or is the val being
     defined) does not hide a global of the same name. -/
-def lookupVal (tbl : SymTab) (st : CPState) (scope name : String) : Except Diag (Option CInt) := do
+def lookupVal (tbl : SymTab) (st : CPState) (scope name : String) : Except CDiag (Option CInt) := do
   let sym ← tbl.lookup scope name
   let sym ← if sym.scope ≠ "" ∧ ¬ st.declared.contains name then tbl.lookup "" name else pure sym
   if sym.isValDecl then
@@ -33,7 +33,7 @@ def lookupVal (tbl : SymTab) (st : CPState) (scope name : String) : Except Diag 
 def sysIdOfNat (id : Nat) : Int := (BitVec.ofNat 32 id).toInt
 
 /-- `ConstProp::visitPost(CallExpr&)` (1902-1916). -/
-def cpCall (tbl : SymTab) (st : CPState) (scope : String) (sys : Int) (f : String) : Except Diag Int := do
+def cpCall (tbl : SymTab) (st : CPState) (scope : String) (sys : Int) (f : String) : Except CDiag Int := do
   let sys' ←
     if sys = -1 then
       match ← lookupVal tbl st scope f with
@@ -45,7 +45,7 @@ def cpCall (tbl : SymTab) (st : CPState) (scope : String) (sys : Int) (f : Strin
   | some id => if id ≥ 3 ∨ id < 0 then throw (.invalidSyscall id) else pure id
 
 mutual
-def cpExpr (tbl : SymTab) (st : CPState) (scope : String) : X.Expr → Except Diag AExpr
+def cpExpr (tbl : SymTab) (st : CPState) (scope : String) : X.Expr → Except CDiag AExpr
   | .num v => pure (.num v (some v))
   | .bool b => pure (.bool b (some (b2w b)))
   | .str bs => pure (.str bs)
@@ -69,7 +69,7 @@ def cpExpr (tbl : SymTab) (st : CPState) (scope : String) : X.Expr → Except Di
       | some a, some b => some (foldBin op a b)
       | _, _ => none
     pure (.bin op l' r' c)
-def cpArgs (tbl : SymTab) (st : CPState) (scope : String) : List X.Expr → Except Diag (List AExpr)
+def cpArgs (tbl : SymTab) (st : CPState) (scope : String) : List X.Expr → Except CDiag (List AExpr)
   | [] => pure []
   | e :: es => do
     let e' ← cpExpr tbl st scope e
@@ -78,7 +78,7 @@ def cpArgs (tbl : SymTab) (st : CPState) (scope : String) : List X.Expr → Exce
 end
 
 mutual
-def cpStmt (tbl : SymTab) (st : CPState) (scope : String) : X.Stmt → Except Diag AStmt
+def cpStmt (tbl : SymTab) (st : CPState) (scope : String) : X.Stmt → Except CDiag AStmt
   | .skip => pure .skip
   | .stop => pure .stop
   | .ret e => do pure (.ret (← cpExpr tbl st scope e))
@@ -108,7 +108,7 @@ def cpStmt (tbl : SymTab) (st : CPState) (scope : String) : X.Stmt → Except Di
     let args' ← cpArgs tbl st scope args
     let sys ← cpCall tbl st scope (sysIdOfNat id) ""
     pure (.call sys "" args')
-def cpStmts (tbl : SymTab) (st : CPState) (scope : String) : List X.Stmt → Except Diag (List AStmt)
+def cpStmts (tbl : SymTab) (st : CPState) (scope : String) : List X.Stmt → Except CDiag (List AStmt)
   | [] => pure []
   | s :: ss => do
     let s' ← cpStmt tbl st scope s
@@ -122,7 +122,7 @@ def declareLocal (st : CPState) (scope name : String) : CPState :=
 
 /-- Declarations of one scope in order; `mk i` is the node identity of the i-th one. -/
 def cpDecls (tbl : SymTab) (scope : String) (mk : Nat → NodeRef) :
-    List X.Decl → Nat → CPState → Except Diag (List ADecl × CPState)
+    List X.Decl → Nat → CPState → Except CDiag (List ADecl × CPState)
   | [], _, st => pure ([], st)
   | d :: ds, i, st => do
     let (d', st') ←
@@ -140,7 +140,7 @@ def cpDecls (tbl : SymTab) (scope : String) (mk : Nat → NodeRef) :
     let (ds', st'') ← cpDecls tbl scope mk ds (i + 1) st'
     pure (d' :: ds', st'')
 
-def cpProcs (tbl : SymTab) : List X.Proc → Nat → CPState → Except Diag (List AProc)
+def cpProcs (tbl : SymTab) : List X.Proc → Nat → CPState → Except CDiag (List AProc)
   | [], _, _ => pure []
   | p :: ps, i, st => do
     -- visitPre(Proc): declaredLocals.clear(); then the formals
@@ -151,7 +151,7 @@ def cpProcs (tbl : SymTab) : List X.Proc → Nat → CPState → Except Diag (Li
     pure ({ isFunc := p.isFunc, name := p.name, formals := p.formals, locals := locals, body := body } :: ps')
 
 /-- `tree->accept(&constProp)`. -/
-def constProp (tbl : SymTab) (P : X.Program) : Except Diag AProgram := do
+def constProp (tbl : SymTab) (P : X.Program) : Except CDiag AProgram := do
   let (globals, st) ← cpDecls tbl "" NodeRef.gdecl P.globals 0 { known := [], declared := [] }
   let procs ← cpProcs tbl P.procs 0 st
   pure { globals := globals, procs := procs }
